@@ -7,6 +7,9 @@ ids = [p['id'] for p in props]
 
 # id -> (technique, level text, level note)
 CLAIMED = {
+ 'C02': ('PBT: hypothesis-generated operator tables x exhaustive short + structured token sequences; precedence-climbing reference and reference-free tree validity predicate',
+         'Generated-input search: ~1000 (quick) tables with colliding spellings, all row kinds, four operand kinds, optional ignore and mixfix rows are run on every token sequence up to a per-table length and on structured/truncated sentences up to 12 tokens, as the whole rule and inlined in three exposing contexts; outcomes (tree and extent) are compared with a scanner + precedence-climbing reference, and sourcer\'s own tree is checked to read back in order to exactly the consumed text and to respect precedence/associativity along its spines.',
+         'Trusts vlib/optab.py (self-tested on hand cases; deliberately not shunting-yard); spellings unique within a kind; tables <= 5 rows (+2 mixfix).'),
  'C03': ('PBT: exhaustive bounds x options x contexts matrix on all short inputs; reference interpreter + direct bound/trailer invariants; hypothesis nesting',
          'Generated-input search: the full matrix {e{n},e{m,n},e{m,},e{,n}: 0<=m<=n<=3} x 5 element kinds x 5 ways of supplying the bound (literal, let, inline python, template parameter, class field) x 9 enclosing contexts and Sep x 12 option combinations x elements x separators x contexts is enumerated on all inputs of length <=4/5 over {a,b,",",Z} and compared with the reference interpreter; bounds and trailer invariants are also checked directly on the output; the 4 invalid Sep option combinations must be rejected. Hypothesis adds nested combinations.',
          'Trusts vlib/peg.py (Appendix A); symbolic bounds keep m<=n (F22 out of domain); bounds 0..3.'),
